@@ -33,13 +33,19 @@ func runC01(c *kit.Ctx) {
 	pieceWrite := c.FuncObj("internal/filesection", "Piece.Write")
 
 	// ---- R01.1 single writer of torrent files
+	//
+	// Function boundaries are not part of the rule: a WriteAt may sit in a
+	// helper of Piece.Write, Piece.Write may be called from a helper of
+	// PieceWriter.Run, Truncate from a helper of FileStorage.Open. What is
+	// required is that every call-graph path into the site passes through the
+	// gate function (kit.OnlyReachedVia).
 	{
 		n := 0
 		for _, s := range sortSites(c.CallSites(writeAt)) {
 			n++
 			key := k.key(s.Fn, "call io.WriterAt.WriteAt")
-			if s.Fn == secWrite {
-				c.Present("R01.1", key, posOf(s.Instr), "WriteAt on a section file inside filesection.Piece.Write")
+			if inPkg(s.Fn, c, "internal/filesection") && c.OnlyReachedVia(s.Fn, 3, secWrite) {
+				c.Present("R01.1", key, posOf(s.Instr), "WriteAt on a section file inside filesection.Piece.Write (or a helper only it calls)")
 			} else {
 				c.Bad("R01.1", key, posOf(s.Instr), "WriteAt on a storage file outside filesection.Piece.Write: a second road to disk that bypasses the hash gate")
 			}
@@ -49,9 +55,9 @@ func runC01(c *kit.Ctx) {
 			obj := c.FuncObj("os", "(*File)."+m)
 			for _, s := range sortSites(c.CallSites(obj)) {
 				key := k.key(s.Fn, "call (*os.File)."+m)
-				if m == "Truncate" && s.Fn == fsOpen {
+				if m == "Truncate" && inPkg(s.Fn, c, "internal/storage/filestorage") && c.OnlyReachedVia(s.Fn, 3, fsOpen) {
 					n++
-					c.Present("R01.1", key, posOf(s.Instr), "Truncate only during allocation in filestorage.Open")
+					c.Present("R01.1", key, posOf(s.Instr), "Truncate only during allocation in filestorage.Open (or a helper only it calls)")
 				} else {
 					c.Bad("R01.1", key, posOf(s.Instr), "(*os.File).%s outside filestorage.Open / filesection.Piece.Write", m)
 				}
@@ -73,19 +79,19 @@ func runC01(c *kit.Ctx) {
 			checkPieceWriteCaller(c, k, cf, e.Site, pwRun)
 		}
 		c.Floor("R01.1", "callers of filesection.Piece.Write", callers, 1)
-		// spawn sites of PieceWriter.Run
+		// spawn sites of PieceWriter.Run: wherever the writer is started it is
+		// started as a goroutine; the obligations that must hold at the spawn
+		// (Writing=true, both channels suspended, double-write guard) are
+		// evaluated at every site by R01.7.
 		runObj := c.FuncObj("internal/piecewriter", "(*PieceWriter).Run")
 		spawns := 0
-		hPM := c.Func("torrent", "(*torrent).handlePieceMessage")
-		hWS := c.Func("torrent", "(*torrent).handleWebseedPieceResult")
 		for _, s := range sortSites(c.CallSites(runObj)) {
 			spawns++
 			key := k.key(s.Fn, "spawn PieceWriter.Run")
-			_, isGo := s.Instr.(*ssa.Go)
-			if (s.Fn == hPM || s.Fn == hWS) && isGo {
-				c.Present("R01.1", key, posOf(s.Instr), "piece writer spawned from a completed-download handler")
+			if _, isGo := s.Instr.(*ssa.Go); isGo {
+				c.Present("R01.1", key, posOf(s.Instr), "piece writer started as a goroutine (spawn obligations: R01.7)")
 			} else {
-				c.Bad("R01.1", key, posOf(s.Instr), "PieceWriter.Run started from an unexpected place (%s)", kit.FuncName(s.Fn))
+				c.Bad("R01.1", key, posOf(s.Instr), "PieceWriter.Run called synchronously / deferred in %s: not a spawn whose obligations R01.7 evaluates", kit.FuncName(s.Fn))
 			}
 		}
 		for _, s := range c.FuncRefs(runObj) {
@@ -96,27 +102,39 @@ func runC01(c *kit.Ctx) {
 
 	// ---- R01.2 hash dominates write, same bytes
 	{
-		hashOK := c.FieldBool(pwRun, fHashOK, true)
+		hashOK := c.FieldBoolSpec(fHashOK, true, kit.DefaultDeep)
+		isBufData := func(v ssa.Value) bool {
+			e := kit.Canon(v)
+			return e.IsField(fBufData) && e.Base().IsField(fPWBuffer)
+		}
 		writes := 0
-		kit.Instrs(pwRun, func(ins ssa.Instruction) {
-			if !kit.CallsAny(ins, pieceWrite, writeAt) {
-				return
+		var sites []kit.Site
+		sites = append(sites, c.CallSites(pieceWrite)...)
+		for _, s := range c.CallSites(writeAt) {
+			if inPkg(s.Fn, c, "internal/piecewriter") {
+				sites = append(sites, s)
 			}
+		}
+		for _, s := range sortSites(sites) {
+			if s.Fn.Synthetic != "" {
+				continue
+			}
+			ins := s.Instr
 			writes++
-			key := k.key(pwRun, "write")
-			if !hashOK.Before(ins) {
+			key := k.key(s.Fn, "write")
+			if !hashOK.Holds(ins, 2) {
 				c.Bad("R01.2", key, posOf(ins), "Piece.Data.Write is reachable without HashOK==true: unverified bytes can reach the files")
-				return
+				continue
 			}
-			// the bytes written are w.Buffer.Data
-			arg := kit.Canon(argOf(kit.CallOf(ins), 1))
-			if !(arg.IsField(fBufData) && arg.Base().IsField(fPWBuffer)) {
-				c.Bad("R01.2", key, posOf(ins), "bytes written (%s) are not the writer's Buffer.Data", arg)
-				return
+			// the bytes written are w.Buffer.Data (possibly handed to a helper as an argument)
+			av := argOf(kit.CallOf(ins), 1)
+			if !c.HoldsForValue(av, 2, isBufData) {
+				c.Bad("R01.2", key, posOf(ins), "bytes written (%s) are not the writer's Buffer.Data", kit.Canon(av))
+				continue
 			}
-			c.OK("R01.2", key, posOf(ins), "write dominated by HashOK==true; bytes written = %s", arg)
-		})
-		c.Floor("R01.2", "write calls in PieceWriter.Run", writes, 1)
+			c.OK("R01.2", key, posOf(ins), "write dominated by HashOK==true; bytes written = %s", kit.Canon(av))
+		}
+		c.Floor("R01.2", "calls of filesection.Piece.Write", writes, 1)
 		// HashOK stores
 		stores := 0
 		for _, st := range fieldStores(c, fHashOK) {
@@ -134,9 +152,11 @@ func runC01(c *kit.Ctx) {
 			}
 		}
 		c.Floor("R01.2", "stores to HashOK", stores, 1)
-		// no store to Buffer / Data between verify and write: none in Run at all
+		// no store to Buffer / Data between verify and write: none in Run (and
+		// the helpers it calls) at all
 		bad := false
-		for _, fn := range kit.WithAnon(pwRun) {
+		runFns := c.FuncsDeep(pwRun, 2, false)
+		for _, fn := range runFns {
 			kit.Instrs(fn, func(ins ssa.Instruction) {
 				if _, isCall := ins.(*ssa.Call); isCall {
 					return // callee effects: Buffer is a value field of w; only direct stores / copy matter
@@ -151,9 +171,11 @@ func runC01(c *kit.Ctx) {
 			c.OK("R01.2", kit.FuncName(pwRun)+"/buffer-stable", pwRun.Pos(), "no store to PieceWriter.Buffer / Buffer.Data inside Run")
 		}
 		// nothing in Run writes *into* the buffer bytes (copy, io.ReadFull...)
-		checkNoByteWritesInto(c, k, "R01.2", pwRun, func(e *kit.Expr) bool {
-			return e.Mentions(func(x *kit.Expr) bool { return x.IsField(fBufData) })
-		})
+		for _, fn := range runFns {
+			checkNoByteWritesInto(c, k, "R01.2", fn, func(e *kit.Expr) bool {
+				return e.Mentions(func(x *kit.Expr) bool { return x.IsField(fBufData) })
+			})
+		}
 	}
 
 	// ---- R01.3 VerifyHash means what it says
@@ -278,6 +300,10 @@ func checkPieceWriteCaller(c *kit.Ctx, k *keyer, cf *ssa.Function, site ssa.Call
 	}
 	if cf == pwRun {
 		c.Present("R01.1", key, pos, "Piece.Write called from PieceWriter.Run")
+		return
+	}
+	if c.OnlyReachedVia(cf, 2, pwRun) {
+		c.Present("R01.1", key, pos, "Piece.Write called from %s, which is only reached through PieceWriter.Run", kit.FuncName(cf))
 		return
 	}
 	c.Bad("R01.1", key, pos, "filesection.Piece.Write may be called from %s (call graph), outside PieceWriter.Run", kit.FuncName(cf))
